@@ -67,9 +67,11 @@ Fixpoint edge_match (h p : eattr) : bool :=
   | _, _ => true
   end.
 
-(** MTG copy: one attribute, float(None) raises TypeError -> False *)
+(** MTG copy, one attribute (after repair /repo 24a0150; before it float(None) raised TypeError -> False, so two bonds that
+    both lack the order never matched): both missing -> match, one missing -> no match, numbers by float equality *)
 Definition edge_match_mtg (h p : eattr) : bool :=
   match h, p with
+  | None :: _, None :: _ => true
   | Some a :: _, Some b :: _ => Z.eqb a b
   | _, _ => false
   end.
